@@ -51,8 +51,13 @@ class PandasMaterializer(FormulaMaterializer):
     @override
     def _is_categorical(self, values: Any) -> bool:
         if isinstance(values, (pandas.Series, pandas.Categorical)):
-            return values.dtype == object or isinstance(
-                values.dtype, (pandas.CategoricalDtype, pandas.StringDtype)
+            return (
+                values.dtype == object
+                or isinstance(
+                    values.dtype, (pandas.CategoricalDtype, pandas.StringDtype)
+                )
+                # ... and any other text dtype (e.g. `ArrowDtype(pyarrow.string())`)
+                or pandas.api.types.is_string_dtype(values.dtype)
             )
         return super()._is_categorical(values)
 
